@@ -126,6 +126,11 @@ def loop_info(body):
         if not isinstance(hdr, int):
             continue
         assigned = li.setdefault(hdr, set())
+        borrowed = getattr(body, '_loop_borrowed', None)
+        if borrowed is None:
+            borrowed = body._loop_borrowed = {}
+        bset = borrowed.setdefault(hdr, set())
+        really = borrowed.setdefault(('assigned', hdr), set())
         for n in nodes:
             if not isinstance(n, int):
                 continue
@@ -133,14 +138,18 @@ def loop_info(body):
             for s_ in bl['stmts']:
                 if 'lhs' in s_:
                     assigned.add(s_['lhs']['local'])
+                    really.add(s_['lhs']['local'])
                     rv = s_['rv']
                     if rv['k'] in ('ref', 'rawptr') and rv.get('mut', True):
                         assigned.add(rv['place']['local'])
+                        bset.add(rv['place']['local'])
                 elif 'setdiscr' in s_:
                     assigned.add(s_['setdiscr']['local'])
+                    really.add(s_['setdiscr']['local'])
             t = bl['term']
             if t['k'] == 'call':
                 assigned.add(t['dest']['local'])
+                really.add(t['dest']['local'])
     body._loop_info = li
     return li
 
@@ -529,6 +538,16 @@ class Executor:
             if args[0][3] == 'Ok':
                 return ('agg', 'adt', 'core::ops::ControlFlow', 'Continue', ('0',), (args[0][5][0],))
             return ('agg', 'adt', 'core::ops::ControlFlow', 'Break', ('0',), (args[0],))
+        if res == '<core::result::Result as core::ops::FromResidual>::from_residual' and len(args) == 1 \
+                and args[0][0] == 'agg' and args[0][2] == 'core::result::Result' and args[0][3] == 'Err' \
+                and len(args[0][5]) == 1:
+            # `?` on an Err whose payload is known on this path (an inlined helper returned it): when the error types
+            # agree the conversion is the identity and the function returns that very error
+            tys = _top_level_args(t.get('gargs', '')[1:-1])
+            if len(tys) == 2:
+                e1, e2 = _top_level_args(_inner(tys[0])), _top_level_args(_inner(tys[1]))
+                if e1 and e2 and e1[-1] == e2[-1]:
+                    return ('agg', 'adt', 'core::result::Result', 'Err', ('0',), (args[0][5][0],))
         if res == '<core::option::Option as core::ops::FromResidual>::from_residual':
             # `opt?` on the None edge: the function returns None
             return ('agg', 'adt', 'core::option::Option', 'None', (), ())
@@ -600,6 +619,7 @@ class Executor:
             if not isinstance(fid, tuple):
                 li = loop_info(body)
                 if block in li:
+                    self._cur_body = body
                     self._widen(st, fid, block, n, li[block])
             for s in bl['stmts']:
                 if 'lhs' in s:
@@ -771,7 +791,12 @@ class Executor:
                 for i, P in enumerate(targets):
                     # the modset describes writes through the callee's first &mut self-like argument
                     self.havoc(st, P, cid, fields if (i == 0 and fields is not None) else None)
-                self.write(st, dest, ('call', cid))
+                if res == '<core::result::Result as core::ops::FromResidual>::from_residual':
+                    # whatever the error conversion yields, the result of from_residual is an Err (so that a `?` on
+                    # it in an enclosing, inlined-into caller does not fork a path on which it is Ok)
+                    self.write(st, dest, ('agg', 'adt', 'core::result::Result', 'Err', ('0',), (('call', cid),)))
+                else:
+                    self.write(st, dest, ('call', cid))
                 if t['target'] < 0:
                     yield st, 'diverge', None
                     return
@@ -782,12 +807,22 @@ class Executor:
 
     def _widen(self, st, fid, header, visit, assigned):
         """Loop head: values carried around the loop are unknown (sound for any number of iterations)."""
+        only_borrowed = set()
+        for b_ in (self._cur_body,) if getattr(self, '_cur_body', None) is not None else ():
+            lb = getattr(b_, '_loop_borrowed', {})
+            only_borrowed = lb.get(header, set()) - lb.get(('assigned', header), set())
         for L in assigned:
             P = ('local', fid, L)
             if P in st.store:
                 v = st.store[P]
                 if v[0] in ('ref',):
                     continue    # references to fixed places stay what they are
+                if L in only_borrowed:
+                    # never assigned inside the loop, only lent mutably (an iterator advanced by next()): unknown state,
+                    # but still the object it was before the loop
+                    prev = v[3] if (v[0] == 'havoc' and len(v) > 3) else v
+                    st.store[P] = ('havoc', P, ('loop', header, visit), prev)
+                    continue
                 st.store[P] = ('loopvar', fid, L, header, visit)
             for Q in [Q for Q in st.store if Q != P and is_prefix(P, Q)]:
                 del st.store[Q]
@@ -873,6 +908,28 @@ class Executor:
                 'body': body.nname, 'depth': depth, 'dty': t.get('dty', ''), 'resolved': resolved}
 
 
+def _top_level_args(s):
+    out, depth, cur = [], 0, ''
+    for ch in s:
+        if ch in '<([':
+            depth += 1
+        elif ch in '>)]':
+            depth -= 1
+        if ch == ',' and depth == 0:
+            out.append(cur.strip())
+            cur = ''
+        else:
+            cur += ch
+    if cur.strip():
+        out.append(cur.strip())
+    return out
+
+
+def _inner(s):
+    i, j = s.find('<'), s.rfind('>')
+    return s[i + 1:j] if 0 <= i < j else ''
+
+
 def _mentions_loopy(v, depth=0):
     return False
 
@@ -953,7 +1010,7 @@ def show(v, body=None, depth=0):
     if k == 'fn':
         return 'fn ' + (v[2] or v[1])
     if k == 'havoc':
-        return 'havoc#%d(%s)' % (v[2], s(v[1]))
+        return 'havoc#%s(%s)' % (v[2] if isinstance(v[2], int) else 'loop', s(v[1]))
     if k == 'upd':
         return '%s{%s: %s}' % (s(v[1]), v[2], s(v[4]))
     if k == 'loopvar':
